@@ -52,6 +52,8 @@ SIG_BY_CLASS = {}
 for _c, _n in SIGNATURE_FEATURES:
     SIG_BY_CLASS.setdefault(_c, []).append(_n)
 
+SIG_BY_CLASS['Resource'] = ['roots']      # pseudo node: the root packages of one .ecore resource, by position
+
 PRIMS = ['EString', 'EInt', 'EBoolean', 'EFloat', 'EDouble', 'EInteger', 'ELong', 'EDate', 'EBigDecimal',
          'EJavaObject', 'EChar', 'EIntegerObject', 'EBooleanObject']
 INST_PRIMS = {'EString', 'EInt', 'EBoolean', 'EFloat', 'EDouble', 'EInteger', 'ELong'}
@@ -84,12 +86,15 @@ def qname(o):
         names.append(str(getattr(cur, 'name', '?')))
         cur = c
     root = getattr(cur, 'nsURI', None)
+    if id(cur) in _ROOT_IDX:
+        root = f'[root {_ROOT_IDX[id(cur)]}]{root}'       # which root package of the resource: a mix-up is visible
     if not names and not inspect.ismodule(cur) and not isinstance(cur, ecore().EPackage):
         return '?dangling:' + str(getattr(cur, 'name', '?'))
     return f'{root}#' + '/'.join(reversed(names))
 
 
 _META = {}
+_ROOT_IDX = {}       # id(root package) -> position in its resource, while signature_all runs
 
 
 def meta_feature(metaclass, name):
@@ -125,7 +130,20 @@ def signature(epackage):
     return element_sig(epackage)
 
 
+def signature_all(roots):
+    """Signature of a whole .ecore resource: its root packages by position; every referenced element is qualified by
+    the position and nsURI of the root package that owns it."""
+    global _ROOT_IDX
+    roots = list(roots)
+    _ROOT_IDX = {id(r): i for i, r in enumerate(roots)}
+    try:
+        return {'metaclass': 'Resource', 'roots': [element_sig(r) for r in roots]}
+    finally:
+        _ROOT_IDX = {}
+
+
 LABEL = {
+    'roots': 'root-packages',
     'eSubpackages': 'subpackage', 'eAnnotations': 'annotation', 'source': 'annotation', 'details': 'annotation',
     'eSuperTypes': 'supertypes', 'eLiterals': 'enum-literal', 'eParameters': 'operation-parameter',
     'eOperations': 'operation', 'eExceptions': 'operation', 'eStructuralFeatures': 'feature',
@@ -351,8 +369,92 @@ def gen_metamodel(rng, size):
     return root
 
 
+def roots_of(desc):
+    return desc['roots'] if 'roots' in desc else [desc]
+
+
+def _classes_of(d, path=''):
+    for c in d['classifiers']:
+        if c['kind'] == 'class':
+            yield (path + '/' if path else '') + c['name'], c
+    for sp in d['subpackages']:
+        yield from _classes_of(sp, (path + '/' if path else '') + sp['name'])
+
+
+def gen_desc(rng, size):
+    """One .ecore resource: mostly one root package; a share with 2-3 root packages, some of them TWINS (same
+    classifier, feature, enum and sub-package names as the first root, so that the same fragment path exists under
+    several roots), with references, opposites and supertypes that cross from one root to another."""
+    first = gen_metamodel(rng, size)
+    if rng.random() < 0.6:
+        return first
+    roots = [first]
+    for j in range(1, rng.choice([2, 2, 3])):
+        if rng.random() < 0.65:
+            d = json.loads(json.dumps(first))           # twin: every name is equal
+            for _, c in _classes_of(d):
+                for f in c['features']:
+                    if rng.random() < 0.25:
+                        f['ordered'] = not f['ordered']
+                    if rng.random() < 0.2 and not f.get('opposite') and not f.get('iD'):
+                        f['upper'] = rng.choice([1, -1, 3])
+                        f['lower'] = min(f['lower'], 1)
+                        if f['upper'] != 1 and f['kind'] == 'attr':
+                            f['defaultValueLiteral'] = None
+                if rng.random() < 0.4:
+                    c['features'].append({
+                        'kind': 'attr', 'name': f'only_in_{j}', 'type': 'ecore:EString', 'lower': 0, 'upper': 1,
+                        'ordered': True, 'unique': True, 'iD': False, 'derived': False, 'transient': False,
+                        'changeable': True, 'volatile': False, 'unsettable': False, 'defaultValueLiteral': None,
+                        'annotations': []})
+                    break
+        else:
+            d = gen_metamodel(rng, rng.choice([1, 2, 3, size]))   # names overlap anyway: the counters restart
+        roots.append(d)
+    for i, d in enumerate(roots):
+        d['name'] = f'{d["name"]}_{i}'
+        d['nsURI'] = f'{d["nsURI"]}/r{i}'
+        d['nsPrefix'] = f'{d["nsPrefix"]}{i}'
+        stack = list(d['subpackages'])
+        while stack:
+            sp = stack.pop()
+            sp['nsURI'] = f'{sp["nsURI"]}/r{i}'
+            sp['nsPrefix'] = f'{sp["nsPrefix"]}r{i}'
+            stack.extend(sp['subpackages'])
+    # links across roots: reference, bidirectional reference, supertype
+    n = 0
+    for j in range(1, len(roots)):
+        k = rng.randrange(j)                                    # an earlier root
+        here = list(_classes_of(roots[j]))
+        there = list(_classes_of(roots[k]))
+        if not here or not there:
+            continue
+        for _ in range(rng.randint(1, 3)):
+            n += 1
+            (pa, ca), (pb, cb) = rng.choice(here), rng.choice(there)
+            f = _ref(f'xr{n}', f'@{k}:{pb}', upper=rng.choice([1, -1]))
+            ca['features'].append(f)
+            if rng.random() < 0.5:
+                g = _ref(f'xb{n}', f'@{j}:{pa}', upper=rng.choice([1, -1]), opposite=f'@{j}:{pa}/xr{n}')
+                f['opposite'] = f'@{k}:{pb}/xb{n}'
+                cb['features'].append(g)
+        if rng.random() < 0.5:
+            pb, cb = rng.choice(there)
+            # a fresh class (no name can clash with what it inherits) whose supertype lives in another root
+            roots[j]['classifiers'].append(_cls(f'Xsub{j}', supers=[f'@{k}:{pb}'], abstract=rng.random() < 0.3))
+    return {'roots': roots}
+
+
+def split_ref(t, ri):
+    """'@k:path' names something of root package k, a bare path something of the root package it is written in"""
+    if t.startswith('@'):
+        k, rest = t[1:].split(':', 1)
+        return int(k), rest
+    return ri, t
+
+
 def build(desc):
-    """Description -> EPackage through the dynamic API (constructors, collections, setters)."""
+    """Description -> list of root EPackages through the dynamic API (constructors, collections, setters)."""
     E = ecore()
     table = {}
 
@@ -363,12 +465,12 @@ def build(desc):
                 ann.details[k] = v
             elem.eAnnotations.append(ann)
 
-    def mk_package(d, path):
+    def mk_package(d, path, ri):
         p = E.EPackage(d['name'], nsURI=d['nsURI'], nsPrefix=d['nsPrefix'])
         mk_annotations(p, d.get('annotations'))
         # sub-packages first or classifiers first: both are separate containments
         for c in d['classifiers']:
-            q = (path + '/' if path else '') + c['name']
+            q = (ri, (path + '/' if path else '') + c['name'])
             if c['kind'] == 'class':
                 x = E.EClass(c['name'], abstract=c['abstract'])
             elif c['kind'] == 'enum':
@@ -383,18 +485,19 @@ def build(desc):
             p.eClassifiers.append(x)
             table[q] = x
         for s in d['subpackages']:
-            p.eSubpackages.append(mk_package(s, (path + '/' if path else '') + s['name']))
+            p.eSubpackages.append(mk_package(s, (path + '/' if path else '') + s['name'], ri))
         return p
 
-    root = mk_package(desc, '')
+    rdescs = roots_of(desc)
+    roots = [mk_package(d, '', ri) for ri, d in enumerate(rdescs)]
 
-    def ty(t):
+    def ty(t, ri):
         if t is None:
             return None
         if t.startswith('ecore:'):
             x = getattr(E, t[6:])
             return x.eClass if isinstance(x, type) else x
-        return table[t]
+        return table[split_ref(t, ri)]
 
     def all_classes(d, path):
         for c in d['classifiers']:
@@ -403,40 +506,47 @@ def build(desc):
         for s in d['subpackages']:
             yield from all_classes(s, (path + '/' if path else '') + s['name'])
 
-    cl = list(all_classes(desc, ''))
+    cl = [((ri, q), c) for ri, d in enumerate(rdescs) for q, c in all_classes(d, '')]
     for q, c in cl:
         for s in c['supers']:
-            table[q].eSuperTypes.append(ty(s))
+            table[q].eSuperTypes.append(ty(s, q[0]))
     feats = {}
     for q, c in cl:
+        ri = q[0]
         for f in c['features']:
             common_kw = dict(lower=f['lower'], upper=f['upper'], ordered=f['ordered'], unique=f['unique'],
                              derived=f['derived'], transient=f['transient'], changeable=f['changeable'],
                              volatile=f['volatile'], unsettable=f['unsettable'])
             if f['kind'] == 'attr':
-                x = E.EAttribute(f['name'], ty(f['type']), iD=f['iD'],
+                x = E.EAttribute(f['name'], ty(f['type'], ri), iD=f['iD'],
                                  defaultValueLiteral=f['defaultValueLiteral'], **common_kw)
             else:
-                x = E.EReference(f['name'], ty(f['type']), containment=f['containment'], **common_kw)
+                x = E.EReference(f['name'], ty(f['type'], ri), containment=f['containment'], **common_kw)
             mk_annotations(x, f.get('annotations'))
             table[q].eStructuralFeatures.append(x)
-            feats[q + '/' + f['name']] = (x, f)
+            feats[(ri, q[1] + '/' + f['name'])] = (x, f)
     for k, (x, f) in feats.items():
         if f['kind'] == 'ref' and f.get('opposite'):
-            x.eOpposite = feats[f['opposite']][0]
+            x.eOpposite = feats[split_ref(f['opposite'], k[0])][0]
     for q, c in cl:
+        ri = q[0]
         for o in c['operations']:
-            params = [E.EParameter(p['name'], ty(p['type']), required=p['required'], lower=p['lower'],
+            params = [E.EParameter(p['name'], ty(p['type'], ri), required=p['required'], lower=p['lower'],
                                    upper=p['upper'], ordered=p['ordered'], unique=p['unique'])
                       for p in o['params']]
-            op = E.EOperation(o['name'], ty(o['type']), params=params,
-                              exceptions=[ty(e) for e in o['exceptions']], lower=o['lower'], upper=o['upper'],
+            op = E.EOperation(o['name'], ty(o['type'], ri), params=params,
+                              exceptions=[ty(e, ri) for e in o['exceptions']], lower=o['lower'], upper=o['upper'],
                               ordered=o['ordered'], unique=o['unique'])
             table[q].eOperations.append(op)
-    return root
+    return roots
 
 
 def all_packages(p):
+    """every package below a root package, or below each root package of a list"""
+    if isinstance(p, (list, tuple)):
+        for r in p:
+            yield from all_packages(r)
+        return
     yield p
     for s in p.eSubpackages:
         yield from all_packages(s)
@@ -599,16 +709,18 @@ def register(rset, pkg):
             rset.metamodel_registry[p.nsURI] = p
 
 
-def save_reload(pkg, tmp, name='mm.ecore'):
+def save_reload(roots, tmp, name='mm.ecore'):
+    """all root packages into ONE .ecore resource; reload it in a fresh ResourceSet -> its root packages"""
     from pyecore.resources import URI
     path = os.path.join(tmp, name)
     rs = fresh_rset()
     res = rs.create_resource(URI(path))
-    res.append(pkg)
+    for r in roots:
+        res.append(r)
     res.save()
     rs2 = fresh_rset()
     res2 = rs2.get_resource(URI(path))
-    return res2.contents[0], path
+    return list(res2.contents), path
 
 
 def _eclass_of(t):
@@ -681,17 +793,17 @@ def evaluate(desc, inst_seed, tmp, stats=None):
     from pyecore.resources import URI
     fails = []
     orig = build(desc)
-    sig0 = signature(orig)
+    sig0 = signature_all(orig)
     try:
         reloaded, path = save_reload(orig, tmp)
     except Exception as e:
         return [{'clause': 'signature', 'construct': 'save-or-load-raises',
                  'what': f'{type(e).__name__}: {e}', 'pairs': []}]
-    sig0b = signature(orig)
+    sig0b = signature_all(orig)
     if sig0b != sig0:
         fails.append({'clause': 'signature', 'construct': 'save-changes-original',
                       'what': 'saving changed the original metamodel: ' + str(sig_diff(sig0, sig0b)[:2]), 'pairs': []})
-    sig1 = signature(reloaded)
+    sig1 = signature_all(reloaded)
     diffs = sig_diff(sig0, sig1)
     by_label = {}
     for lab, pair, p, a, b in diffs:
@@ -783,7 +895,8 @@ def _count_nondefault(s, acc):
         if v in (None, [], '') or (n in _DEFAULTS and v == _DEFAULTS[n]):
             continue
         k = f'{mc}.{n}'
-        acc[k] = acc.get(k, 0) + 1
+        if mc != 'Resource':
+            acc[k] = acc.get(k, 0) + 1
         if isinstance(v, list):
             for x in v:
                 if isinstance(x, dict):
@@ -832,7 +945,10 @@ def _lists_of(desc):
                 out.extend((o['params'], i) for i in range(len(o['params'])))
         for s in d['subpackages']:
             pk(s)
-    pk(desc)
+    if 'roots' in desc:
+        out.extend((desc['roots'], i) for i in range(len(desc['roots'])) if len(desc['roots']) > 1)
+    for r in roots_of(desc):
+        pk(r)
     return out
 
 
@@ -1035,6 +1151,25 @@ def _pkg(classifiers):
 
 
 # minimal witnesses of the defects this check found (fixed in /repo); evaluated first on every run
+def _twins():
+    def one(extra):
+        return [_cls('Node', abstract=True, features=[extra, _ref('leaves', 'Leaf', upper=-1, opposite='Leaf/owner')]),
+                _cls('Leaf', supers=['Node'], features=[_ref('owner', 'Node', opposite='Node/leaves')])]
+    attr = {'kind': 'attr', 'type': 'ecore:EString', 'lower': 0, 'upper': 1, 'ordered': True, 'unique': True,
+            'iD': False, 'derived': False, 'transient': False, 'changeable': True, 'volatile': False,
+            'unsettable': False, 'defaultValueLiteral': None, 'annotations': []}
+    a, b = _pkg(one(dict(attr, name='label'))), _pkg(one(dict(attr, name='weight', type='ecore:EInt')))
+    a.update(name='v1', nsURI='http://verif/c10/v1', nsPrefix='v1')
+    b.update(name='v2', nsURI='http://verif/c10/v2', nsPrefix='v2')
+    b['classifiers'][1]['features'].append(_ref('previous', '@0:Leaf'))
+    return {'roots': [a, b]}
+
+
+REGRESSIONS_LATE = [
+    ('two root packages with equal classifier and feature names in one .ecore file: references stay inside '
+     'their own root (seeded regression C10_1: fragment cache shared between roots)', _twins),
+]
+
 REGRESSIONS = [
     ('eOpposite set programmatically was never written (fixed dc5c1f6)',
      _pkg([_cls('A', features=[_ref('bs', 'B', upper=-1, opposite='B/a')]),
@@ -1072,9 +1207,10 @@ def run(ctx, out):
     shapes = set()
     samples = []
     sizes = {}
+    nroots = {}
     tmp_root = tempfile.mkdtemp(prefix='c10_', dir=scratch())
     try:
-        for j, (what, desc) in enumerate(REGRESSIONS):
+        for j, (what, desc) in enumerate(REGRESSIONS + [(w, f()) for w, f in REGRESSIONS_LATE]):
             tmp = os.path.join(tmp_root, f'r{j}')
             os.makedirs(tmp)
             for f in evaluate(desc, 12345, tmp, stats):
@@ -1089,7 +1225,8 @@ def run(ctx, out):
             if time.time() - t_start > budget:
                 break
             size = rng.choice([1, 2, 3, 4, 5, 6, 8])
-            desc = gen_metamodel(rng, size)
+            desc = gen_desc(rng, size)
+            nroots[len(roots_of(desc))] = nroots.get(len(roots_of(desc)), 0) + 1
             inst_seed = rng.randrange(1 << 30)
             tmp = os.path.join(tmp_root, f'c{i}')
             os.makedirs(tmp)
@@ -1175,6 +1312,7 @@ def run(ctx, out):
         'signature_features_total': len(SIGNATURE_FEATURES),
         'non_default_occurrences_by_feature': dict(sorted(stats['nondefault'].items())),
         'size_parameter_distribution': sizes,
+        'root_packages_per_resource': nroots,
         'instance_documents_cross_loaded': stats.get('instance_docs', 0),
         'instance_objects': stats.get('instance_objects', 0),
         'instance_docs_not_roundtripping_against_original(C08)':
